@@ -182,17 +182,25 @@ def run_trace(cell):
                 lte["v"] = vt(v)
                 lte["ret"] = "one" if v == 1 else ("zero" if v == 0 else "root")
                 lte["success"] = bool(hy.success)
+                # the manager's entry point (what a user calls) must hand through exactly this value, sentinels included
+                man = WallGo.WallGoManager()
+                man.hydrodynamics = hy
+                lte["mgrSame"] = bool(float(man.wallSpeedLTE()) == v)
                 if lte["ret"] == "root":
                     m = match_event(th, hy, v, want_oracle=False)
                     lte["dSroot"] = m.get("dS", -1)
                     lte["rootMatchOK"] = bool(m.get("out") == "ok" and m.get("dE", -1) >= 5 and m.get("dM", -1) >= 5)
-                if cell.get("template"):
-                    tv = float(hy.template.findvwLTE())
-                    lte["tv"] = vt(tv)
-                    lte["tret"] = "one" if tv == 1 else ("zero" if tv == 0 else "root")
             except Exception as ex:
                 lte["out"] = type(ex).__name__
                 lte["msg"] = str(ex)[:160]
+            if cell.get("template"):
+                # the template solver's own answer, observed separately from the general solver's: an exception here is
+                # NOT the general solver's known error path
+                try:
+                    tv = float(hy.template.findvwLTE())
+                    lte.update(tv=vt(tv), tret="one" if tv == 1 else ("zero" if tv == 0 else "root"), tout="ok")
+                except Exception as ex:
+                    lte.update(tv=-1, tret="raised", tout=type(ex).__name__, tmsg=str(ex)[:160])
             evs.append(lte)
     except Exception as ex:
         evs.append({"e": "Setup", "out": type(ex).__name__, "msg": str(ex)[:200]})
@@ -223,10 +231,14 @@ def run_trace(cell):
             if first["Tp"] > su["TMaxHigh"] + 30 or first["Tm"] > su["TMaxLow"] + 30:
                 sym.append("rangeExceededOnWholeWindow")
     lte = [e for e in evs if e.get("e") == "LTE"]
-    if lte and lte[0].get("out") != "ok":
-        sym.append("lteException")
+    if lte and lte[0].get("out") == "WallGoError" and "matchDeflagOrHyb" in lte[0].get("msg", ""):
+        sym.append("lteException")                 # the general solver's known error path (C05-F1)
+    elif lte and lte[0].get("out") != "ok":
+        sym.append("lteOtherException")
     elif lte and lte[0].get("success") is False:
         sym.append("lteUnconverged")
+    if lte and lte[0].get("tout", "ok") != "ok":
+        sym.append("templateLteException")
     cell = dict(cell, symptoms=sorted(set(sym)), symptom=(sorted(set(sym))[0] if len(set(sym)) == 1 else ("none" if not sym else "several")))
     return {"id": tid, "ev": evs, "cell": cell}
 
@@ -246,8 +258,6 @@ def eos_cells(tier, seed, template_only=False, nv=12, window=False):
         for psi in psis:
             for cs2 in cs2s:
                 for cb2 in cs2s:
-                    if cb2 > cs2:
-                        continue
                     k += 1
                     if tier == "quick" and k % 3 != (seed % 3):
                         continue
